@@ -106,7 +106,8 @@ func Generate(ctx context.Context, wd string, env []string, patterns []string, o
 		copyNonInjectorDecls(g, injectorFiles, pkg.TypesInfo)
 		goSrc := g.frame(opts.Tags)
 		if len(opts.Header) > 0 && len(goSrc) > 0 {
-			goSrc = append(opts.Header, goSrc...)
+			// Copy: opts.Header is shared by all packages and may have spare capacity.
+			goSrc = append(append([]byte(nil), opts.Header...), goSrc...)
 		}
 		fmtSrc, err := format.Source(goSrc)
 		if err != nil {
